@@ -14,8 +14,9 @@
       c14e_resize_frame             root, mapping, mapping pages, disk, every page's content: untouched (no hypothesis)
       c14e_resize_invariant_partial `EngInv f live → ResizeOK f n → EngInvR (f.resize n) live`   (all of `EngInv` except the
                                     three clauses about the limit: `wf.limit`, `noOv`, `ends`). `ResizeOK` only
-                                    restricts "no limit → limit": no gap between the end markers, or below `n`
-      c14e_resize_invariant_bounded full strength for bounded files and for `n = 0`
+                                    restricts updates that LOWER the limit: no gap between the end markers, or the
+                                    data area ends within `n`
+      c14e_resize_invariant_grow / _noGap   full strength for raising / removing the limit, and for files without gap
       c14e_resizeWith_invariant     the same for every decision `k`
       c14e_live_pages_stay          every live page reads the same and its physical page is in no free list
       c14e_grow_keeps_invariant     raising / removing the limit keeps `EngInv` itself
@@ -23,15 +24,20 @@
       c14e_shrink_breaks_limit      FULL `EngInv (f.resize n) live` is FALSE in general: concrete shrink with live
                                     pages beyond the new limit (the data end marker stays beyond the limit)
   (b) the limit
-      c14e_limit                    `(f.resize n).alloc.maxPages = n`, kept by `reopen`
+      c14e_limit                    `(f.resize n).alloc.maxPages = n`, kept by `reopenP`
       c14e_limit_persisted          the header carries `n` after EVERY update with the flag (`hdrMaxAfter … = n`),
       c14e_limit_later_open         and a later plain open runs under `n`
       c14e_unbounded_gets_limit     a header without limit: since /repo 51d10a6 `shrinkFile` runs (`RKind.boundShrink`)
       c14e_session_limit_without_flag   WITHOUT `FlagUpdMaxSize` a limit given for an unbounded file holds for this
                                     session only (`RKind.bound`; documented behaviour)
   (c) grow
-      c14e_grow_exact               no overflow area / gap: allocatable pages grow exactly by `n - old`
-      c14e_grow_exact_general       with a gap: the absorbed pages are the difference
+      c14e_grow_exact               invariant states: allocatable pages grow exactly by `n - old` (no gap hypothesis any more)
+      c14e_grow_exact_general       NO invariant (overflow area in use): `avail' + (dataEnd' - dataEnd) = avail + (n - old)`
+  (n) no collision — the purpose of the (precise) absorb rule, Model/AbsorbP.lean
+      c14e_no_collision(_every_decision)   after the update no meta page lies in [data end, limit)
+      c14e_no_collision_absorb / _norelease   the same WITHOUT invariant for plain open / session limit / grow / shrink
+                                    kinds without release transaction
+      c14e_precise_rule_example     the repaired C10 case: an overflow area beyond the limit is not absorbed
   (d) shrink
       c14e_extent                   `Open` never raises an end marker above the larger of the end markers before
       c14e_alloc_no_extension       `Tx.Alloc` never returns a page at or beyond max(new limit, data end marker);
@@ -43,10 +49,13 @@
       c14e_release_pins_page_beyond_limit   the release transaction itself takes the highest free meta page for the
                                     new free list — possibly beyond the limit (seen on the implementation, too)
       live pages ≥ n stay readable: c14e_live_pages_stay
-  (e) c14e_resize_reopen            `(f.resize n).reopen = f.resize n` (whole state, statistic included)
-      c14e_reopen_from_header_grow / _shrink / _boundShrink   the instance that performed the update and an instance opened later
-                                    from the header it left agree (grow: always; shrink: if the release committed
-                                    or the state had no gap); c14e_gap_shrink_instances_differ: otherwise not
+  (e) c14e_resize_reopen            `(f.resize n).reopenP = f.resize n` (whole state, statistic included)
+      c14e_later_open_is_reopen     after EVERY update transaction the header carries limit and data end marker of the
+                                    updating instance (`initTxMaxSize` stores both): a later open = that instance reopened
+      c14e_reopen_from_header_grow  … which is the instance itself: grow — NO hypothesis at all;
+      c14e_reopen_from_header_norelease   shrink kinds without release transaction — NO invariant;
+      c14e_reopen_from_header_shrink / _boundShrink   shrink kinds on invariant states (with or without release)
+      c14e_grow_then_shrink_agree   the history that diverged on the first version of the patch, now agreeing
 -/
 import TxVerif.Proofs.ResizeEngine
 namespace TxVerif
@@ -67,7 +76,8 @@ theorem c14e_resize_frame (f : FileSt) (k : RKind) (n : Nat) :
 
 /-- **C14 (a), every decision**: the relaxed invariant holds afterwards. Hypothesis `k.pre f n` on the decision:
     `shrink` — bounded file, positive new limit; `boundShrink` (a file without limit gets one) — positive new
-    limit and no gap between the end markers, or a gap below the new limit; nothing for the other decisions. -/
+    limit; for both: no gap between the end markers, or the data area ends within the new limit; nothing for
+    the other decisions. -/
 theorem c14e_resizeWith_invariant (f : FileSt) (live : List Nat) (he : EngInv f live) (k : RKind) (n : Nat)
     (hk : k.pre f n) : EngInvR (f.resizeWith k n).1 live :=
   rz_resizeWith_engInvR he k n hk
@@ -80,22 +90,29 @@ theorem c14e_resizeWith_invariant (f : FileSt) (live : List Nat) (he : EngInv f 
     keys, meta area accounting `free + internal ≤ total`.
 
     Full statement: `EngInv f live → EngInvR (f.resize n) live`.
-    Proved: with `ResizeOK f n`, which only restricts the transition "no limit → limit `n`" (since /repo 51d10a6
-    a `shrinkFile`): the file has no gap between its end markers, or the gap lies below `n`. Bounded files,
-    `n = 0` and files without gap satisfy it (`resizeOK_of_bounded`, `resizeOK_of_noGap`, corollary
-    `c14e_resize_invariant_bounded`).
-    Missing: an UNBOUNDED file whose meta end marker lies above its data end marker with nothing in between
-    (`c10_gap_example`; the implementation reaches that shape only inside a resize, where it is absorbed at
-    once) that is bounded to a limit at or below its data end marker: there the release transaction runs with
-    the meta end marker above the data end marker, which the frame lemmas used here (`AOK2.noOv`) exclude. -/
+    Proved: with `ResizeOK f n`, which only restricts updates that LOWER the limit (`0 < n < old`, or no limit →
+    `n`; both run `shrinkFile`): the file has no gap between its end markers (meta area ends inside the data
+    area), or its data area ends within the new limit. Raising / removing the limit and files without gap
+    satisfy it (`resizeOK_of_grow`, `resizeOK_of_noGap`, `resizeOK_of_fits`; corollaries
+    `c14e_resize_invariant_grow`, `c14e_resize_invariant_noGap`).
+    Missing: a file satisfying the invariant whose meta end marker lies above its data end marker with nothing
+    in between (`c10_gap_example`; the precise absorb rule leaves such an EMPTY gap alone) whose limit is
+    lowered below its data end marker while the last free data region ends at the data end marker: there the
+    release transaction runs with the meta end marker above the data end marker, which the frame lemmas
+    reused here (`AOK2.noOv` for the limit `data.endMarker`) exclude. -/
 theorem c14e_resize_invariant_partial (f : FileSt) (live : List Nat) (he : EngInv f live) (n : Nat)
     (hg : ResizeOK f n) : EngInvR (f.resize n) live :=
   rz_resize_engInvR he n hg
 
-/-- **C14 (a), bounded files / removing the limit**: full strength (no extra hypothesis). -/
-theorem c14e_resize_invariant_bounded (f : FileSt) (live : List Nat) (he : EngInv f live) (n : Nat)
-    (hb : 0 < f.alloc.maxPages ∨ n = 0) : EngInvR (f.resize n) live :=
-  rz_resize_engInvR he n (resizeOK_of_bounded f n hb)
+/-- **C14 (a), raising / removing the limit**: full strength (no extra hypothesis). -/
+theorem c14e_resize_invariant_grow (f : FileSt) (live : List Nat) (he : EngInv f live) (n : Nat)
+    (hb : n = 0 ∨ (0 < f.alloc.maxPages ∧ f.alloc.maxPages ≤ n)) : EngInvR (f.resize n) live :=
+  rz_resize_engInvR he n (resizeOK_of_grow f n hb)
+
+/-- **C14 (a), files without gap**: full strength for every new limit. -/
+theorem c14e_resize_invariant_noGap (f : FileSt) (live : List Nat) (he : EngInv f live) (n : Nat)
+    (hb : f.alloc.mta.endMarker ≤ f.alloc.data.endMarker) : EngInvR (f.resize n) live :=
+  rz_resize_engInvR he n (resizeOK_of_noGap f n hb)
 
 /-- under the relaxed invariant the physical page of a live page is in use, and two live pages have
     different physical pages -/
@@ -157,9 +174,8 @@ theorem c14e_grow_keeps_invariant (f : FileSt) (live : List Nat) (he : EngInv f 
     rw [if_neg (by omega), if_neg (by omega), if_neg (by omega)]
   unfold FileSt.resize
   rw [hk]
-  exact rz_grow_engInv (engInv_reopen he) n (by
-    have : f.reopen.alloc.maxPages = f.alloc.maxPages := (absorb_keeps _).2.2.2.1
-    rw [this]; omega)
+  exact rz_grow_engInv (rz_reopen_engInv he) n (by
+    rw [rz_reopen_alloc he.toR]; omega)
 
 /-- **C14 (a), a shrink that fits**: if after the update both end markers lie within the new limit (no page in
     use beyond it, everything beyond it was released) and are in order, the engine invariant itself holds. -/
@@ -177,9 +193,10 @@ theorem c14e_fits_keeps_invariant (f : FileSt) (live : List Nat) (he : EngInv f 
 /-- **C14 (b)**: the allocator's limit after the update is the requested one, for the instance that performed
     the update and after every later reopen of that state. (No hypothesis.) -/
 theorem c14e_limit (f : FileSt) (n : Nat) :
-    (f.resize n).alloc.maxPages = n ∧ (f.resize n).reopen.alloc.maxPages = n := by
+    (f.resize n).alloc.maxPages = n ∧ (f.resize n).reopenP.alloc.maxPages = n := by
   refine ⟨rz_resize_max f n, ?_⟩
-  rw [rz_reopen_alloc, (absorb_keeps _).2.2.2.1]
+  show (f.resize n).absorbP.alloc.maxPages = n
+  rw [(absorbP_keeps _).2.2.2.1]
   exact rz_resize_max f n
 
 /-- the same for every decision of `openWith` (byte sizes): unless nothing is to be done, the limit is `n` -/
@@ -224,7 +241,10 @@ theorem c14e_unbounded_gets_limit (f : FileSt) (n : Nat) (h0 : f.alloc.maxPages 
   refine ⟨hk, rz_resize_max f n, ?_, c14e_limit_persisted _ _⟩
   unfold FileSt.resize
   rw [hk]
-  exact rz_shrink_txid (f.openAt n f.alloc.data.endMarker) n
+  have := rz_shrinkNew_txid (f.openAt n f.alloc.data.endMarker) n
+  have e : (f.openAt n f.alloc.data.endMarker).txid = f.txid := rz_reopen_txid _
+  rw [e] at this
+  exact this
 
 /-- **WITHOUT the flag a limit given for an unbounded file is session-only** (documented behaviour of
     `Options.MaxSize`, not a defect): `openWith` decides `bound` — the header is read under the limit of the
@@ -235,60 +255,59 @@ theorem c14e_session_limit_without_flag (f : FileSt) (optMax n : Nat) (hn : 0 < 
     (f.resizeWith .bound n).1.txid = f.txid ∧ (f.resizeWith .bound n).2 = .notRun ∧
     hdrMaxAfter 0 .bound n = 0 ∧
     ((f.resizeWith .bound n).1.openAt (hdrMaxAfter 0 .bound n) f.alloc.data.endMarker).alloc.maxPages = 0 := by
-  refine ⟨?_, rz_openAt_max f n _, rfl, rfl, rfl, rz_openAt_max _ 0 _⟩
+  refine ⟨?_, rz_openAt_max f n _, rz_reopen_txid _, rfl, rfl, rz_openAt_max _ 0 _⟩
   unfold rkindBytes
   rw [if_pos rfl, if_neg (by omega)]
   rfl
 
 /-! ## (c) grow -/
 
-/-- **C14 (c), exactly the additional pages**: growing a bounded file whose meta area ends inside the data
-    area (no overflow area in use, no gap) makes exactly `n - old` more pages allocatable. -/
+theorem dataAvail_bounded (a : Alloc) (h : 0 < a.maxPages) : a.dataAvail =
+    a.data.free.length + (if a.data.endMarker < a.maxPages then a.maxPages - a.data.endMarker else 0) := by
+  unfold Alloc.dataAvail; rw [if_neg (by omega)]
+
+/-- **C14 (c), exactly the additional pages**: growing a bounded file in a state satisfying the invariant (no
+    overflow area in use) makes exactly `n - old` more pages allocatable. With the precise absorb rule no
+    "no gap" hypothesis is needed any more: an EMPTY gap between the end markers is not absorbed. -/
 theorem c14e_grow_exact (f : FileSt) (live : List Nat) (he : EngInv f live) (n : Nat)
-    (hold : 0 < f.alloc.maxPages) (hn : f.alloc.maxPages < n)
-    (hnov : f.alloc.mta.endMarker ≤ f.alloc.data.endMarker) :
+    (hold : 0 < f.alloc.maxPages) (hn : f.alloc.maxPages < n) :
     (f.resize n).alloc.dataAvail = f.alloc.dataAvail + (n - f.alloc.maxPages) := by
   have hk : rkindPages f.alloc.maxPages n = .grow := by
     unfold rkindPages
     rw [if_neg (by omega), if_neg (by omega), if_neg (by omega)]
   have hend : f.alloc.data.endMarker ≤ f.alloc.maxPages := by have := he.wf.limit; omega
-  have hre : f.reopen.alloc = f.alloc := by rw [rz_reopen_alloc]; exact absorb_id _ (Or.inl hnov)
-  have h1 := grow_exact f n hold hend (Nat.le_of_lt hn) hnov
-  unfold FileSt.resize
-  rw [hk]
-  show (({ f.reopen.alloc with maxPages := n } : Alloc).absorbOverflow).dataAvail = _
-  rw [hre]
-  exact h1
+  have ha : (f.resize n).alloc = { f.alloc with maxPages := n } := by
+    unfold FileSt.resize
+    rw [hk]
+    show (f.reopenP.resizeGrow n).alloc = _
+    rw [rz_grow_eq (rz_reopen_engInv he) n]
+    show ({ f.reopenP.alloc with maxPages := n } : Alloc) = _
+    rw [rz_reopen_alloc he.toR]
+  rw [ha, dataAvail_bounded _ (show 0 < ({ f.alloc with maxPages := n } : Alloc).maxPages by show 0 < n; omega),
+    dataAvail_bounded _ hold]
+  show f.alloc.data.free.length + (if f.alloc.data.endMarker < n then n - f.alloc.data.endMarker else 0) = _
+  split <;> split <;> omega
 
-/-- **C14 (c), general**: if the meta area ends beyond the data area (a gap / former overflow area), the pages
-    between the two end markers are absorbed into the file when the header is read; they are the only
-    difference: `avail' + absorbed = avail + (n - old)`. -/
-theorem c14e_grow_exact_general (f : FileSt) (live : List Nat) (he : EngInv f live) (n : Nat)
-    (hold : 0 < f.alloc.maxPages) (hn : f.alloc.maxPages < n) :
-    (f.resize n).alloc.dataAvail + (f.reopen.alloc.data.endMarker - f.alloc.data.endMarker) =
-      f.alloc.dataAvail + (n - f.alloc.maxPages) := by
-  have hg := engInv_reopen he
-  have hmax : f.reopen.alloc.maxPages = f.alloc.maxPages := (absorb_keeps _).2.2.2.1
-  have h1 := c14e_grow_exact f.reopen live hg n (by rw [hmax]; exact hold) (by rw [hmax]; exact hn)
-    (rz_reopen_ends he hold)
+/-- **C14 (c), general — NO invariant** (an overflow area may be in use, this is where `absorbOverflowArea`
+    acts): growing a bounded file whose data area lies within the old limit to a limit that covers the
+    whole file. The data end marker afterwards is the old one or — if a meta page lies behind it in front
+    of the new limit — the meta end marker; the pages skipped that way are the only difference:
+    `avail' + (dataEnd' - dataEnd) = avail + (n - old)`. -/
+theorem c14e_grow_exact_general (f : FileSt) (n : Nat)
+    (hold : 0 < f.alloc.maxPages) (hend : f.alloc.data.endMarker ≤ f.alloc.maxPages)
+    (hn : f.alloc.maxPages < n) (hme : f.alloc.mta.endMarker ≤ n) :
+    (f.resize n).alloc.dataAvail + ((f.resize n).alloc.data.endMarker - f.alloc.data.endMarker) =
+      f.alloc.dataAvail + (n - f.alloc.maxPages) ∧
+    ((f.resize n).alloc.data.endMarker = f.alloc.data.endMarker ∨
+     (f.resize n).alloc.data.endMarker = f.alloc.mta.endMarker) := by
   have hk : rkindPages f.alloc.maxPages n = .grow := by
     unfold rkindPages
     rw [if_neg (by omega), if_neg (by omega), if_neg (by omega)]
-  have h2 : f.reopen.resize n = f.resize n := by
-    unfold FileSt.resize
-    rw [hmax, hk]
-    show f.reopen.reopen.resizeGrow n = f.reopen.resizeGrow n
-    rw [rz_reopen_reopen]
-  rw [h2, hmax] at h1
-  rw [h1]
-  have hl := hg.wf.limit
-  have hde : f.alloc.data.endMarker ≤ f.reopen.alloc.data.endMarker := (absorb_keeps _).2.2.2.2.2
-  have hdf : f.reopen.alloc.data.free = f.alloc.data.free := (absorb_keeps _).1
-  have av : ∀ a : Alloc, 0 < a.maxPages → a.dataAvail =
-      a.data.free.length + (if a.data.endMarker < a.maxPages then a.maxPages - a.data.endMarker else 0) := by
-    intro a h; unfold Alloc.dataAvail; rw [if_neg (by omega)]
-  rw [av f.reopen.alloc (by omega), av f.alloc hold, hmax, hdf]
-  rw [hmax] at hl
+  have hF : f.resize n = f.reopenP.resizeGrow n := by unfold FileSt.resize; rw [hk]; rfl
+  obtain ⟨g1, -, -, g4, g5, g6⟩ := rz_grow_fields f n
+  rw [hF]
+  refine ⟨?_, g6⟩
+  rw [dataAvail_bounded _ (by rw [g4]; omega), dataAvail_bounded _ hold, g4, g1]
   split <;> split <;> omega
 
 /-! ## (d) shrink -/
@@ -365,16 +384,16 @@ theorem c14e_fits_within_limit (f : FileSt) (live : List Nat) (he : EngInv f liv
 
 /-! ## (e) reopening afterwards -/
 
-/-- **C14 (e)**: reopening the state the update leaves (`readAllocatorState` + `absorbOverflowArea` +
-    `reportOpen` on that state) changes nothing — the whole state, the statistic included. -/
+/-- **C14 (e)**: reopening the state the update leaves (`File.init` with the precise `absorbOverflowArea` +
+    `reportOpen` on that state, `FileSt.reopenP`) changes nothing — the whole state, the statistic included. -/
 theorem c14e_resize_reopen (f : FileSt) (live : List Nat) (he : EngInv f live) (n : Nat) (hg : ResizeOK f n) :
-    (f.resize n).reopen = f.resize n := by
+    (f.resize n).reopenP = f.resize n := by
   unfold FileSt.resize
   exact rz_resizeWith_reopen he _ n (rkindPages_pre f n hg)
 
 /-- the same for every decision of `openWith` -/
 theorem c14e_resizeWith_reopen (f : FileSt) (live : List Nat) (he : EngInv f live) (k : RKind) (n : Nat)
-    (hk : k.pre f n) : (f.resizeWith k n).1.reopen = (f.resizeWith k n).1 :=
+    (hk : k.pre f n) : (f.resizeWith k n).1.reopenP = (f.resizeWith k n).1 :=
   rz_resizeWith_reopen he k n hk
 
 /-- **C14 (d), extent**: the update never raises an end marker above the larger of the end markers before — the
@@ -430,7 +449,7 @@ example :
     (exRz.resize 10).readPage 7 = Content.full 7 3 ∧ (exRz.resize 10).readPage 9 = Content.full 9 2 := by decide
 
 example : EngInv (exRz.resize 10) [7, 8, 9] :=
-  c14e_fits_keeps_invariant exRz _ engInv_exRz 10 (resizeOK_of_bounded _ _ (by decide)) (by decide) (by decide) (by decide)
+  c14e_fits_keeps_invariant exRz _ engInv_exRz 10 (resizeOK_of_noGap _ _ (by decide)) (by decide) (by decide) (by decide)
 
 /-- shrink 20 → 11: the free region is split at the limit -/
 example : (exRz.resize 11).alloc.data = { endMarker := 11, free := [10] } ∧ (exRz.resize 11).alloc.mta.endMarker = 11 := by decide
@@ -443,7 +462,7 @@ theorem c14e_shrink_breaks_limit :
     EngInv exRz [7, 8, 9] ∧ ¬ EngInv (exRz.resize 8) [7, 8, 9] ∧ EngInvR (exRz.resize 8) [7, 8, 9] ∧
     (exRz.resize 8).alloc.data.endMarker = 10 ∧ (exRz.resize 8).alloc.maxPages = 8 ∧
     (exRz.resize 8).readPage 8 = exRz.readPage 8 ∧ (exRz.resize 8).readPage 9 = exRz.readPage 9 := by
-  refine ⟨engInv_exRz, ?_, c14e_resize_invariant_bounded _ _ engInv_exRz 8 (by decide), by decide, by decide, by decide, by decide⟩
+  refine ⟨engInv_exRz, ?_, c14e_resize_invariant_noGap _ _ engInv_exRz 8 (by decide), by decide, by decide, by decide, by decide⟩
   intro h
   have := h.wf.limit
   revert this
@@ -497,46 +516,71 @@ theorem c14e_free_page_beyond_limit :
     end marker lies within the new limit (`canReleaseRegions` is false for the data area). That does NOT
     mean that everything free beyond the limit was released — `c14e_release_pins_page_beyond_limit`. -/
 theorem c14e_release_maximal_data (f : FileSt) (live : List Nat) (he : EngInv f live) (n : Nat)
-    (hold : 0 < f.alloc.maxPages) (hn : 0 < n) (hd : (f.resizeWith .shrink n).2 = .done) :
-    canRelease (f.resizeWith .shrink n).1.alloc.data n = false :=
-  rz_shrink_maximal (ShrinkPre.ofEngInv (engInv_reopen he) n) (rz_reopen_ends he hold) hn hd
+    (hold : 0 < f.alloc.maxPages) (hn : 0 < n)
+    (hgap : f.alloc.mta.endMarker ≤ f.alloc.data.endMarker ∨ f.alloc.data.endMarker ≤ n)
+    (hd : (f.resizeWith .shrink n).2 = .done) :
+    canRelease (f.resizeWith .shrink n).1.alloc.data n = false := by
+  rw [rz_resizeWith_shrink_eq he n] at hd ⊢
+  exact rz_shrink_maximal (rz_reopen_shrinkPre he n) (by rw [rz_reopen_alloc he.toR]; exact hgap) hn hd
 
-/-- **C14 (e), grow, from the header**: `initTxMaxSize` copies the active header, so after a grow the header
-    carries the new limit and the OLD data end marker; an instance opened later from that header computes
-    exactly the state of the instance that performed the update (`absorbOverflowArea` under the new limit
-    absorbs what it absorbed under the old one and more). No invariant needed. -/
-theorem c14e_reopen_from_header_grow (f : FileSt) (n : Nat)
-    (hn : n = 0 ∨ (0 < f.alloc.maxPages ∧ f.alloc.maxPages ≤ n)) :
+/-- **C14 (e), from the header, every update**: `initTxMaxSize` stores the data end marker it computed together with
+    the new limit (and a committed release writes the in-memory markers), so an instance opened later from
+    the header is the updating instance reopened. (No hypothesis.) -/
+theorem c14e_later_open_is_reopen (f : FileSt) (k : RKind) (n : Nat) (hk : k = .grow ∨ k = .shrink ∨ k = .boundShrink) :
+    (f.resizeWith k n).1.openAt (hdrMaxAfter f.alloc.maxPages k n)
+      (hdrDataEndAfter f.alloc.data.endMarker k (f.resizeWith k n)) = (f.resizeWith k n).1.reopenP := by
+  have : hdrMaxAfter f.alloc.maxPages k n = n := by rcases hk with rfl | rfl | rfl <;> rfl
+  rw [this]
+  exact rz_from_header f k n _ hk
+
+/-- **C14 (e), grow, from the header — NO hypothesis at all** (any state, any new limit, an overflow area may be
+    in use): an instance opened later from the header computes exactly the state of the instance that performed
+    the update. -/
+theorem c14e_reopen_from_header_grow (f : FileSt) (n : Nat) :
     (f.resizeWith .grow n).1.openAt (hdrMaxAfter f.alloc.maxPages .grow n)
-      (hdrDataEndAfter f.alloc.data.endMarker (f.resizeWith .grow n)) = (f.resizeWith .grow n).1 :=
-  rz_grow_from_header f n hn
+      (hdrDataEndAfter f.alloc.data.endMarker .grow (f.resizeWith .grow n)) = (f.resizeWith .grow n).1 := by
+  rw [c14e_later_open_is_reopen f .grow n (Or.inl rfl)]
+  exact rz_grow_reopen _ n (by rw [rz_reopen_openStat]; rfl)
 
-/-- **C14 (e), shrink, from the header**: if the release transaction committed (it writes the in-memory end
-    markers) or the state had no gap, an instance opened later from the header computes exactly the state
-    of the instance that performed the update. -/
+/-- **C14 (e), shrink without release, from the header — NO invariant** (this is the case of the divergence found on
+    the first version of the patch: grow over an overflow area, then shrink): if `shrinkFile` does not run the
+    release transaction, an instance opened later from the header computes exactly the state of the instance
+    that performed the update. -/
+theorem c14e_reopen_from_header_norelease (f : FileSt) (k : RKind) (n : Nat) (hk : k = .shrink ∨ k = .boundShrink)
+    (hr : (f.resizeWith k n).2 = .notRun) :
+    (f.resizeWith k n).1.openAt (hdrMaxAfter f.alloc.maxPages k n)
+      (hdrDataEndAfter f.alloc.data.endMarker k (f.resizeWith k n)) = (f.resizeWith k n).1 := by
+  rw [c14e_later_open_is_reopen f k n (Or.inr hk)]
+  rcases hk with rfl | rfl
+  · exact rz_shrinkNew_notRun_reopen f.reopenP n (by rw [rz_reopen_openStat]; rfl) hr
+  · exact rz_shrinkNew_notRun_reopen (f.openAt n f.alloc.data.endMarker) n (rz_openAt_stat f n _) hr
+
+/-- **C14 (e), shrink, from the header** (invariant states, with or without release): an instance opened later from
+    the header computes exactly the state of the instance that performed the update. `hgap` as in
+    `c14e_resizeWith_invariant`. -/
 theorem c14e_reopen_from_header_shrink (f : FileSt) (live : List Nat) (he : EngInv f live) (n : Nat)
     (hold : 0 < f.alloc.maxPages) (hn : 0 < n)
-    (hc : (f.resizeWith .shrink n).2 = .done ∨ f.alloc.mta.endMarker ≤ f.alloc.data.endMarker) :
+    (hgap : f.alloc.mta.endMarker ≤ f.alloc.data.endMarker ∨ f.alloc.data.endMarker ≤ n) :
     (f.resizeWith .shrink n).1.openAt (hdrMaxAfter f.alloc.maxPages .shrink n)
-      (hdrDataEndAfter f.alloc.data.endMarker (f.resizeWith .shrink n)) = (f.resizeWith .shrink n).1 :=
-  rz_shrink_from_header he n hold hn hc
+      (hdrDataEndAfter f.alloc.data.endMarker .shrink (f.resizeWith .shrink n)) = (f.resizeWith .shrink n).1 := by
+  rw [c14e_later_open_is_reopen f .shrink n (Or.inr (Or.inl rfl))]
+  exact rz_resizeWith_reopen he .shrink n ⟨hold, hn, hgap⟩
 
-/-- **C14 (e), a file without limit gets one, from the header**: as for a shrink — if the release transaction
-    committed or the state had no gap, an instance opened later from the header (limit `n`) computes exactly
-    the state of the instance that performed the update. -/
+/-- **C14 (e), a file without limit gets one, from the header**: as for a shrink. -/
 theorem c14e_reopen_from_header_boundShrink (f : FileSt) (live : List Nat) (he : EngInv f live) (n : Nat) (hn : 0 < n)
-    (hg : f.alloc.mta.endMarker ≤ f.alloc.data.endMarker ∨ f.alloc.data.endMarker < n)
-    (hc : (f.resizeWith .boundShrink n).2 = .done ∨ f.alloc.mta.endMarker ≤ f.alloc.data.endMarker) :
+    (hgap : f.alloc.mta.endMarker ≤ f.alloc.data.endMarker ∨ f.alloc.data.endMarker ≤ n) :
     (f.resizeWith .boundShrink n).1.openAt (hdrMaxAfter f.alloc.maxPages .boundShrink n)
-      (hdrDataEndAfter f.alloc.data.endMarker (f.resizeWith .boundShrink n)) = (f.resizeWith .boundShrink n).1 :=
-  rz_boundShrink_from_header he n hn hg hc
+      (hdrDataEndAfter f.alloc.data.endMarker .boundShrink (f.resizeWith .boundShrink n)) = (f.resizeWith .boundShrink n).1 := by
+  rw [c14e_later_open_is_reopen f .boundShrink n (Or.inr (Or.inr rfl))]
+  exact rz_resizeWith_reopen he .boundShrink n ⟨hn, hgap⟩
 
 /-- **C14 (d), nothing more to release in the data area** when a file without limit gets one -/
 theorem c14e_release_maximal_data_bound (f : FileSt) (live : List Nat) (he : EngInv f live) (n : Nat) (hn : 0 < n)
-    (hg : f.alloc.mta.endMarker ≤ f.alloc.data.endMarker ∨ f.alloc.data.endMarker < n)
+    (hgap : f.alloc.mta.endMarker ≤ f.alloc.data.endMarker ∨ f.alloc.data.endMarker ≤ n)
     (hd : (f.resizeWith .boundShrink n).2 = .done) :
-    canRelease (f.resizeWith .boundShrink n).1.alloc.data n = false :=
-  rz_shrink_maximal (rz_openAt_shrinkPre he n) (rz_openAt_ends f n (by omega)) hn hd
+    canRelease (f.resizeWith .boundShrink n).1.alloc.data n = false := by
+  rw [rz_resizeWith_boundShrink_eq he n] at hd ⊢
+  exact rz_shrink_maximal (rz_openAt_shrinkPre he n) (by rw [rz_openAt_alloc he n]; exact hgap) hn hd
 
 /-- `exUnb` = `exRz` without limit -/
 def exUnb : FileSt := { exRz with alloc := { exRz.alloc with maxPages := 0 } }
@@ -570,7 +614,7 @@ theorem c14e_unbounded_example :
     (exUnb.resize 10).alloc = { maxPages := 10, pageSize := 4096, data := { endMarker := 10, free := [] },
                                 mta := { endMarker := 10, free := [3] }, metaTotal := 5, freelistPages := [4] } ∧
     (exUnb.resize 10).txid = exUnb.txid + 2 ∧ hdrMaxAfter 0 .boundShrink 10 = 10 ∧
-    (exUnb.resize 10).openAt 10 (hdrDataEndAfter 12 (exUnb.resizeWith .boundShrink 10)) = exUnb.resize 10 ∧
+    (exUnb.resize 10).openAt 10 (hdrDataEndAfter 12 .boundShrink (exUnb.resizeWith .boundShrink 10)) = exUnb.resize 10 ∧
     (exUnb.resizeWith .bound 10).1.alloc.data = { endMarker := 12, free := [10, 11] } ∧
     (exUnb.resizeWith .bound 10).1.alloc.maxPages = 10 ∧ (exUnb.resizeWith .bound 10).1.txid = exUnb.txid ∧
     hdrMaxAfter 0 .bound 10 = 0 :=
@@ -637,18 +681,129 @@ theorem engInv_exGapB : EngInv exGapB [4, 5, 6, 7] := by
       or_false] at hx
     subst hx; simp [InUse, exGapB]
 
-/-- **the hypothesis of `c14e_reopen_from_header_shrink` is needed**: shrinking `exGapB` 20 → 8. `Open` first
-    absorbs the gap under the OLD limit (data end marker 8 → 10), the shrink releases nothing, the header
-    keeps data end marker 8 with limit 8: an instance opened later does not absorb (8 is not below the
-    limit) — the two instances differ in the data end marker (10 vs 8). Both are full; `Tx.Alloc`
-    fails on both. -/
-theorem c14e_gap_shrink_instances_differ :
+/-- an EMPTY gap is left alone by the precise rule: shrinking `exGapB` 20 → 8 — the instance that performs the update
+    and an instance opened later from the header agree (data end marker 8; the first absorb rule raised it to
+    10 in the updating instance only) -/
+theorem c14e_empty_gap_not_absorbed :
     EngInv exGapB [4, 5, 6, 7] ∧ (exGapB.resizeWith .shrink 8).2 = .notRun ∧
-    (exGapB.resizeWith .shrink 8).1.alloc.data.endMarker = 10 ∧
-    hdrDataEndAfter exGapB.alloc.data.endMarker (exGapB.resizeWith .shrink 8) = 8 ∧
-    ((exGapB.resizeWith .shrink 8).1.openAt 8 8).alloc.data.endMarker = 8 ∧
-    (exGapB.resizeWith .shrink 8).1.alloc.dataAvail = 0 ∧ ((exGapB.resizeWith .shrink 8).1.openAt 8 8).alloc.dataAvail = 0 :=
-  ⟨engInv_exGapB, by decide, by decide, by decide, by decide, by decide, by decide⟩
+    (exGapB.resizeWith .shrink 8).1.alloc.data.endMarker = 8 ∧
+    hdrDataEndAfter exGapB.alloc.data.endMarker .shrink (exGapB.resizeWith .shrink 8) = 8 ∧
+    (exGapB.resizeWith .shrink 8).1.openAt 8 8 = (exGapB.resizeWith .shrink 8).1 :=
+  ⟨engInv_exGapB, by decide, by decide, by decide, by decide⟩
+
+/-! ## overflow area in use (outside `EngInv`): what the precise absorb rule does
+
+  `exRzOv`: limit 10, data end marker 8, meta end marker 12; the overflow area [10, 12) holds the free-list page
+  10 and the free meta page 11 — it lies completely BEYOND the limit, the data end marker has dropped below the
+  limit (pages 8, 9 were freed and released). -/
+
+def exRzOv : FileSt :=
+  { alloc := { maxPages := 10, pageSize := 4096, data := { endMarker := 8, free := [] },
+               mta := { endMarker := 12, free := [3, 11] }, metaTotal := 4, freelistPages := [10] },
+    walMap := [], walPages := [], txid := 5, disk := [(4, Content.full 4 1)] }
+
+/-- **the repaired case (C10)**: a plain reopen leaves the data end marker at 8 — pages 8, 9 stay allocatable —, the
+    first rule (`FileSt.reopen`) raised it to 12 and lost them. Growing to 20 pages absorbs the area (pages 10, 11
+    now lie in front of the limit): data end marker 12, no meta page in [12, 20) (`c14e_no_collision_absorb`),
+    `Tx.Alloc` hands out page 12, not the free-list page 10. Growing only to 11: page 10 lies in front of the
+    limit, absorbed as well. -/
+theorem c14e_precise_rule_example :
+    exRzOv.reopenP.alloc.data.endMarker = 8 ∧ exRzOv.reopenP.alloc.dataAvail = 2 ∧
+    exRzOv.reopen.alloc.data.endMarker = 12 ∧ exRzOv.reopen.alloc.dataAvail = 0 ∧
+    (exRzOv.resize 20).alloc.data.endMarker = 12 ∧ (exRzOv.resize 20).alloc.dataAvail = 8 ∧
+    (txAlloc (exRzOv.resize 20) ((exRzOv.resize 20).beginTx false 0 0) 1).toOption.map (·.2.2) = some [12] ∧
+    (exRzOv.resize 11).alloc.data.endMarker = 12 ∧ (exRzOv.resize 0).alloc.data.endMarker = 12 := by decide
+
+/-- `exRzOv2`: a file at (beyond) its limit with an overflow area in use: limit 25, data end marker 26, meta end
+    marker 28, mapping page 26 and free-list page 27 behind the data end marker. -/
+def exRzOv2 : FileSt :=
+  { alloc := { maxPages := 25, pageSize := 4096, data := { endMarker := 26, free := [] },
+               mta := { endMarker := 28, free := [3] }, metaTotal := 3, freelistPages := [27] },
+    walMap := [], walPages := [26], txid := 5, disk := [] }
+
+/-- **grow over an overflow area, then shrink: the updating instance and every later instance agree** (the history of
+    `vh resize -seed 5 -tier thorough`, program 206, which diverged on the first version of the patch: the grow
+    absorbed the area in memory only, the header kept the old data end marker, and after the shrink a later
+    open did not absorb any more). Now: grow 25 → 31 stores data end marker 28 WITH the limit; the shrink
+    31 → 22 (opened from that header) keeps 28 and stores it again; an instance opened later from the header
+    (limit 22, data end marker 28) is exactly the shrinking instance. Not an `EngInv` state. -/
+theorem c14e_grow_then_shrink_agree :
+    (exRzOv2.resize 31).alloc.data.endMarker = 28 ∧
+    hdrDataEndAfter 26 .grow (exRzOv2.resizeWith .grow 31) = 28 ∧
+    (exRzOv2.resize 31).openAt 31 28 = exRzOv2.resize 31 ∧
+    ((exRzOv2.resize 31).resizeWith .shrink 22).2 = .notRun ∧
+    ((exRzOv2.resize 31).resizeWith .shrink 22).1.alloc.data.endMarker = 28 ∧
+    hdrDataEndAfter 28 .shrink ((exRzOv2.resize 31).resizeWith .shrink 22) = 28 ∧
+    ((exRzOv2.resize 31).resizeWith .shrink 22).1.openAt 22 28 = ((exRzOv2.resize 31).resizeWith .shrink 22).1 := by
+  decide
+
+/-! ## no collision: what absorbing is for -/
+
+/-- **C14, no collision (every decision)**: after the update no meta page — free meta page, free-list page, mapping
+    page, overwrite page — lies at or behind the data end marker and in front of the (new) limit: whatever the
+    data area hands out from the end of the file later is not a meta page. -/
+theorem c14e_no_collision_every_decision (f : FileSt) (live : List Nat) (he : EngInv f live) (k : RKind) (n : Nat)
+    (hk : k.pre f n) (p : Nat) (hp : p ∈ (f.resizeWith k n).1.metaPages) :
+    ¬ ((f.resizeWith k n).1.alloc.data.endMarker ≤ p ∧
+       ((f.resizeWith k n).1.alloc.maxPages = 0 ∨ p < (f.resizeWith k n).1.alloc.maxPages)) :=
+  rz_no_collision (rz_resizeWith_engInvR he k n hk) p hp
+
+/-- **C14, no collision** for `Open` with `FlagUpdMaxSize` and `MaxSize = n` pages (`ResizeOK`: see
+    `c14e_resize_invariant_partial`) -/
+theorem c14e_no_collision (f : FileSt) (live : List Nat) (he : EngInv f live) (n : Nat) (hg : ResizeOK f n)
+    (p : Nat) (hp : p ∈ (f.resize n).metaPages) :
+    ¬ ((f.resize n).alloc.data.endMarker ≤ p ∧ (n = 0 ∨ p < n)) := by
+  have := rz_no_collision (c14e_resize_invariant_partial f live he n hg) p hp
+  rw [rz_resize_max] at this
+  exact this
+
+/-- **C14, no collision, NO invariant** (overflow area in use; this is where `absorbOverflowArea` acts): for the
+    decisions that end with the absorb step — plain open, session limit, grow / unbound — and ANY state whose
+    meta pages lie below the meta end marker, no meta page lies at or behind the data end marker and in
+    front of the limit afterwards. -/
+theorem c14e_no_collision_absorb (f : FileSt) (k : RKind) (n : Nat) (hk : k = .same ∨ k = .bound ∨ k = .grow)
+    (hm : ∀ p ∈ f.metaPages, p < f.alloc.mta.endMarker) (p : Nat) (hp : p ∈ (f.resizeWith k n).1.metaPages) :
+    ¬ ((f.resizeWith k n).1.alloc.data.endMarker ≤ p ∧
+       ((f.resizeWith k n).1.alloc.maxPages = 0 ∨ p < (f.resizeWith k n).1.alloc.maxPages)) := by
+  rcases hk with rfl | rfl | rfl
+  · exact rz_absorbP_no_collision f hm p hp
+  · exact rz_absorbP_no_collision
+      ({ f with alloc := { f.alloc with maxPages := n, data := { f.alloc.data with endMarker := f.alloc.data.endMarker } } } : FileSt)
+      hm p hp
+  · have h1 : ({ f.reopenP with alloc := { f.reopenP.alloc with maxPages := n }, txid := f.reopenP.txid + 1 } : FileSt).metaPages =
+        f.metaPages := absorbP_metaPages f
+    have h2 : ({ f.reopenP with alloc := { f.reopenP.alloc with maxPages := n }, txid := f.reopenP.txid + 1 } : FileSt).alloc.mta =
+        f.alloc.mta := (absorbP_keeps f).2.1
+    exact rz_absorbP_no_collision
+      ({ f.reopenP with alloc := { f.reopenP.alloc with maxPages := n }, txid := f.reopenP.txid + 1 } : FileSt)
+      (by rw [h1, h2]; exact hm) p hp
+
+/-- the limit update `initTxMaxSize` leaves no meta page in front of the data area (any state) -/
+theorem limitTx_no_collision (g : FileSt) (n : Nat) (hm : ∀ p ∈ g.metaPages, p < g.alloc.mta.endMarker) (p : Nat)
+    (hp : p ∈ (g.limitTx n).metaPages) :
+    ¬ ((g.limitTx n).alloc.data.endMarker ≤ p ∧ ((g.limitTx n).alloc.maxPages = 0 ∨ p < (g.limitTx n).alloc.maxPages)) :=
+  rz_absorbP_no_collision ({ g with alloc := { g.alloc with maxPages := n }, txid := g.txid + 1 } : FileSt) hm p hp
+
+/-- … and for the two decisions that run `shrinkFile`, when no release transaction runs (NO invariant) -/
+theorem c14e_no_collision_norelease (f : FileSt) (k : RKind) (n : Nat) (hk : k = .shrink ∨ k = .boundShrink)
+    (hr : (f.resizeWith k n).2 = .notRun)
+    (hm : ∀ p ∈ f.metaPages, p < f.alloc.mta.endMarker) (p : Nat) (hp : p ∈ (f.resizeWith k n).1.metaPages) :
+    ¬ ((f.resizeWith k n).1.alloc.data.endMarker ≤ p ∧
+       ((f.resizeWith k n).1.alloc.maxPages = 0 ∨ p < (f.resizeWith k n).1.alloc.maxPages)) := by
+  rcases hk with rfl | rfl
+  · have e : (f.resizeWith .shrink n).1 = f.reopenP.limitTx n := rz_shrinkNew_notRun f.reopenP n hr
+    rw [e] at hp ⊢
+    have h1 : f.reopenP.metaPages = f.metaPages := absorbP_metaPages f
+    have h2 : f.reopenP.alloc.mta = f.alloc.mta := (absorbP_keeps f).2.1
+    exact limitTx_no_collision f.reopenP n (by rw [h1, h2]; exact hm) p hp
+  · have e : (f.resizeWith .boundShrink n).1 = (f.openAt n f.alloc.data.endMarker).limitTx n :=
+      rz_shrinkNew_notRun (f.openAt n f.alloc.data.endMarker) n hr
+    rw [e] at hp ⊢
+    have h1 : (f.openAt n f.alloc.data.endMarker).metaPages = f.metaPages := absorbP_metaPages _
+    have h2 : (f.openAt n f.alloc.data.endMarker).alloc.mta = f.alloc.mta := (absorbP_keeps _).2.1
+    exact limitTx_no_collision _ n (by rw [h1, h2]; exact hm) p hp
+
+example : ∀ p ∈ exRzOv.metaPages, p < exRzOv.alloc.mta.endMarker := by decide
 
 /-! ## the decision on byte sizes and on page counts -/
 
